@@ -91,6 +91,8 @@ func c19Scope(pk string) bool {
 		return true
 	case len(seg) == 3 && seg[0] == "field" && seg[2] == "extensions":
 		return true
+	case pk == "field/eisenstein":
+		return true
 	}
 	return false
 }
@@ -100,7 +102,14 @@ func c19Scope(pk string) bool {
 var c19Infeasible = map[string]string{
 	"ecc/*/fr/polynomial|(*Polynomial).Add|0": "the only read that follows a write of the receiver is bigger[len(smaller):] in the branch taken when p is `smaller` (identity of the first element); if p is also `bigger` both have the same length and that tail is empty, otherwise `bigger` is the other operand",
 	"ecc/*/fr/polynomial|(*Polynomial).Add|1": "same as parameter 0 (the two operands are swapped into bigger/smaller)",
-	"ecc/*/fr/polynomial|(*MultiLin).Eq|0": "the receiver must hold 2^len(q) entries (guarded by a panic) while q holds len(q): n = 2^n has no solution, so the two slices are never the same object",
+	"ecc/*/fr/polynomial|(*MultiLin).Eq|0":    "the receiver must hold 2^len(q) entries (guarded by a panic) while q holds len(q): n = 2^n has no solution, so the two slices are never the same object",
+}
+
+// c19Outputs: operands documented as additional destinations (index among the operands), with
+// the sentence of the doc comment that says so. They are checked like the receiver (no operand is
+// read after they were written) and are exempt from operand immutability.
+var c19Outputs = map[string]map[int]string{
+	"field/eisenstein|(*ComplexNumber).QuoRem": {2: "\"QuoRem sets z to the quotient of x and y, r to the remainder\""},
 }
 
 func checkC19(c *Ctx) {
@@ -116,12 +125,32 @@ func checkC19(c *Ctx) {
 		for _, fn := range arithmeticMethods(p) {
 			checkAliasSafe(c, p, eff, fn, cfg.ID)
 		}
+		if cfg.ID == K1.ID {
+			c.Rule("C19.subalias", "SUB-OBJECT ALIASING: in the polynomial, vector and eisenstein packages an operand passed by pointer whose type is the element type of the receiver (p.ScaleInPlace(c *Element)) may be an element of the receiver; it is never read after a receiver element was written — found and fixed: Polynomial.ScaleInPlace/Scale/AddConstantInPlace/SubConstantInPlace", 30)
+			n := 0
+			var hits []Finding
+			for _, fn := range p.RepoFuncs() {
+				if fn.Parent() != nil || fn.Signature.Recv() == nil || fn.Object() == nil || !fn.Object().Exported() || (fn.Origin() != nil && fn.Origin() != fn) {
+					continue
+				}
+				pk := relPkg(fnPkgPath(fn))
+				if !c19Scope(pk) || fn.Blocks == nil {
+					continue
+				}
+				k, h := subObjectHazards(p, eff, fn)
+				n += k
+				hits = append(hits, h...)
+			}
+			c.Instance("C19.subalias", n)
+			reportFindings(c, p, "C19.subalias", nil, hits, "")
+			c.Ob("C19.subalias", "-", "-", "component-typed-operands-analysed", "-", n >= 30, "fewer component-typed operands found than confirmed on the reference tree")
+		}
 		for t := range eff.Trusted {
 			c.Trust(t)
 		}
 	}
 	c.Assume("assembly routines load every input limb of an element before storing the corresponding output (trusted; not analysed)")
-	c.Assume("sub-object aliasing (an operand pointing inside the receiver) is outside the property and is not reported")
+	c.Assume("sub-object aliasing is decided for pointer operands of a component type only (C19.subalias); overlapping sub-slices of one vector are not modelled")
 }
 
 func checkAliasSafe(c *Ctx, p *Program, eff *Effects, fn *ssa.Function, cfg string) {
@@ -130,12 +159,34 @@ func checkAliasSafe(c *Ctx, p *Program, eff *Effects, fn *ssa.Function, cfg stri
 	c.Instance("C19.haz", 1)
 	c.Instance("C19.mod", 1)
 	rt := fn.Signature.Recv().Type()
+	outs := c19Outputs[relPkg(fnPkgPath(fn))+"|"+strings.TrimPrefix(fk, relPkg(fnPkgPath(fn))+".")]
 	for i := 1; i < len(fn.Params); i++ {
 		pt := fn.Params[i].Type()
 		if pointee(pt) == nil {
 			continue
 		}
 		same := sameObjectType(rt, pt)
+		if doc, isOut := outs[i-1]; isOut {
+			// a second destination: no other operand may be read after it was written
+			c.Note(fk + ": operand " + fn.Params[i].Name() + " is a documented destination: " + doc)
+			for j := 1; j < len(fn.Params); j++ {
+				if j == i || !sameObjectType(pt, fn.Params[j].Type()) {
+					continue
+				}
+				if _, alsoOut := outs[j-1]; alsoOut {
+					continue
+				}
+				hz := s.HazBetween(i, j)
+				ok := len(hz) == 0
+				msg, pos := "", p.Pos(fn.Pos())
+				if !ok {
+					pos = p.Pos(s.Haz[hz[0]])
+					msg = fmt.Sprintf("%s [%s]: when the destination %s and the operand %s are the same object the operand is read after the destination was written (write %s%s then read %s%s)", fk, cfg, fn.Params[i].Name(), fn.Params[j].Name(), fn.Params[i].Name(), hz[0].W.Path, fn.Params[j].Name(), hz[0].R.Path)
+				}
+				c.Ob("C19.haz", pkg, fk, fmt.Sprintf("dest#%d-vs-param#%d", i-1, j-1), pos, ok, msg)
+			}
+			continue
+		}
 		if same {
 			if reason, exc := c19Infeasible[modKey(fn, i-1)]; exc {
 				c.Note(fk + ": receiver/operand identity infeasible: " + reason)
